@@ -145,10 +145,14 @@ static void setup_inputs(void) {
 	else if (strcmp(size_cls, "full") == 0) bits = RLC_BN_BITS - 8;
 	else if (strcmp(size_cls, "edge") == 0) bits = RLC_BN_BITS;
 	else if (strcmp(size_cls, "over") == 0) bits = RLC_BN_BITS + 60;
+	/* half of the digit capacity of an integer object: products fill it exactly / exceed it by one bit */
+	else if (strcmp(size_cls, "cap") == 0) bits = (size_t)(RLC_BN_SIZE / 2) * RLC_DIG;
+	else if (strcmp(size_cls, "cap1") == 0) bits = (size_t)(RLC_BN_SIZE / 2) * RLC_DIG + 1;
 	for (int i = 0; i < NB; i++) {
 		rnd_bn(B[i], bits);
 		bn_zero(R[i]);
 	}
+	if (strncmp(size_cls, "cap", 3) == 0) { for (int i = 0; i < NB; i++) { bn_set_bit(B[i], bits - 1, 1); bn_set_bit(B[i], bits - 2, 1); } }
 	if (strcmp(size_cls, "zero") == 0) { bn_zero(B[0]); bn_zero(B[1]); }
 	if (strcmp(size_cls, "one") == 0) { bn_set_dig(B[0], 1); bn_set_dig(B[1], 1); }
 	if (strcmp(size_cls, "order") == 0) { bn_copy(B[0], n); bn_sub_dig(B[1], n, 1); }
@@ -213,7 +217,19 @@ OP(bn_mul_karat) { W(bn_mul_karat(R[0], B[0], B[1])); out_bn(R[0]); }
 OP(bn_sqr_basic) { W(bn_sqr_basic(R[0], B[0])); out_bn(R[0]); }
 OP(bn_sqr_comba) { W(bn_sqr_comba(R[0], B[0])); out_bn(R[0]); }
 OP(bn_sqr_karat) { W(bn_sqr_karat(R[0], B[0])); out_bn(R[0]); }
-OP(bn_lsh) { W(bn_lsh(R[0], B[0], 77)); out_bn(R[0]); }
+/* shift amounts from the seed: small, whole digits, and around the amount that fills the destination exactly
+ * (the carry out of the top digit then needs one digit more than the capacity) */
+OP(bn_lsh) {
+	dig_t r = B[6]->dp[0];
+	long sh;
+	switch (r % 4) {
+		case 0: sh = (long)((r >> 8) % 200); break;
+		case 1: sh = (long)RLC_DIG * (long)((r >> 8) % 20); break;
+		default: sh = (long)RLC_BN_SIZE * RLC_DIG - (long)bn_bits(B[0]) + (long)((r >> 8) % 141) - 70; break;
+	}
+	if (sh < 0) sh = 0;
+	W(bn_lsh(R[0], B[0], (uint_t)sh)); out_bn(R[0]);
+}
 /* divisor / modulus of a seeded shorter length (all B[i] of a class have the same length, which would make
  * every quotient trivial): R[3] = B[2] shifted right by a seeded share of its length, kept odd and >= 3 */
 static void short_modulus_of(int shares) {
